@@ -196,7 +196,7 @@ func c05Tables(ctx *Ctx) (defaults [][5]interface{}, sites []c05Site, notes []st
 		}
 	}
 	// 2. call sites of the code generated for the shape space
-	shapes := allShapes()
+	shapes := c05Shapes()
 	byID := map[int]PShape{}
 	var schemaShapes []PShape
 	for _, s := range shapes {
@@ -335,7 +335,7 @@ func (s PShape) wireFragment(req J) (string, bool) {
 		}
 		k, _ := kv[0].(string)
 		val, _ := kv[1].(string)
-		if s.Loc == "header" && strings.EqualFold(k, "X-V") {
+		if s.Loc == "header" && strings.EqualFold(k, headerParamName) {
 			return val, true
 		}
 		if s.Loc == "cookie" && strings.EqualFold(k, "Cookie") {
@@ -360,7 +360,7 @@ func (s PShape) buildRequest(wire string) J {
 	case "query":
 		req["url"] = fmt.Sprintf("http://h/p%d?%s", s.ID, wire)
 	case "header":
-		req["headers"] = [][2]string{{"X-V", wire}}
+		req["headers"] = [][2]string{{headerParamName, wire}}
 	case "cookie":
 		c := wire
 		if strings.ContainsAny(c, " ,") {
@@ -445,8 +445,9 @@ func runC05(ctx *Ctx) error {
 	}
 	// RUN
 	var shapes []PShape
-	for _, s := range allShapes() {
-		if s.Mode == "schema" {
+	for _, s := range c05Shapes() {
+		// the Lean codec model has no deepObject serialiser: its call sites are in the table above, its wire form is not compared
+		if s.Mode == "schema" && s.Style != "deepObject" {
 			shapes = append(shapes, s)
 		}
 	}
@@ -575,4 +576,18 @@ func c05Class(s PShape, v PValue, ok func(PValue) bool) string {
 func init() {
 	register("c05", runC05)
 	register("gen-c05", genC05)
+}
+
+// c05Shapes: the shape space minus deepObject with no explode given. OAS defines deepObject only with explode=true, and its
+// literal default for a non-form style (false) has no serialisation, so there is no prescribed wire form to compare with; the
+// round trip of that shape is checked under C04.
+func c05Shapes() []PShape {
+	var out []PShape
+	for _, s := range allShapes() {
+		if s.Style == "deepObject" && s.Explode == "" {
+			continue
+		}
+		out = append(out, s)
+	}
+	return out
 }
